@@ -46,6 +46,10 @@ def what_trace(ev, prefix):
     if ev.get("ev") == "render":
         return (f"the printed form of a {len(ev['genes'])}-gene genome is not Render(genome): genes="
                 f"{json.dumps(ev['genes'])[:500]} printed tokens={json.dumps(ev['tokens'])[:500]}")
+    if ev.get("ev") == "parse_long":
+        return (f"real translation of a LONG genome ({len(ev['genes'])} genes) is not the token sequence of its translation "
+                f"(Plushy!TokStream): last genes {json.dumps(ev['genes'][-8:])}, {len(ev['tokens'])} tokens in the real program, "
+                f"the last ones {json.dumps(ev['tokens'][-10:])}")
     if ev.get("ev") == "parse_flat":
         opens = sum(1 for g in ev["genes"] if g.get("o", 0) > 0)
         return (f"real translation of a deeply nested genome ({len(ev['genes'])} genes, {opens} block openers in a "
@@ -87,7 +91,7 @@ def run(ck):
         trace = os.path.join(ck.work, f"plushy-trace-{sh}.ndjson")
         per = runs // shards
         ck.harness(["plushy-trace", "--seed", ck.seed, "--runs", per, "--first-run", sh * per,
-                    "--maxlen", 200, "--long", 0 if q or sh else 2, "--out", trace])
+                    "--maxlen", 200, "--out", trace])
         ck.validate_runs("plushy/Trace_Plushy", "plushy/Trace_Plushy.cfg", trace, sig_trace,
                          what_trace, regen=lambda ev: {"seed": ck.seed, "run": ev["run"]},
                          timeout=2400)
@@ -101,7 +105,8 @@ def run(ck):
                                   "num_opens_rows": len(rows),
                                   "max_nesting_in_random_genomes": max(
                                       (shape(e["prog"]).count("[") for e in first if "prog" in e), default=0),
-                                  "deeply_nested_genomes": sum(1 for e in first if e["ev"] == "parse_flat")})
+                                  "deeply_nested_genomes": sum(1 for e in first if e["ev"] == "parse_flat"),
+                                  "long_genomes_genes": [len(e["genes"]) for e in first if e["ev"] == "parse_long"]})
     ck.cov["samples"] = res.case_samples[:2] + [{"genes": e["genes"][:12], "prog_shape": shape(e["prog"])} for e in first if "prog" in e][:1]
     ck.cov["checker_cmd"] = "tlc MC_Plushy; vh plushy-replay; vh num-opens; vh plushy-trace + tlc Trace_Plushy"
     ck.assumptions += ["instructions that open one block are told apart only by variant (three exist)"]
@@ -116,7 +121,7 @@ def replay(ck, obj):
         r = obj["regen"]
         trace = os.path.join(ck.work, "one-trace.ndjson")
         ck.harness(["plushy-trace", "--seed", r["seed"], "--runs", 1, "--first-run", r["run"],
-                    "--maxlen", 200, "--long", 0 if ck.tier == "quick" else 2, "--out", trace])
+                    "--maxlen", 200, "--out", trace])
         ck.validate_runs("plushy/Trace_Plushy", "plushy/Trace_Plushy.cfg", trace, sig_trace, what_trace)
     else:
         ck.harness(["num-opens", "--out", os.path.join(ck.work, "t.ndjson")])
